@@ -428,13 +428,15 @@ class Worker:
             if not self._running:
                 return None
 
-            if addr not in self._tasks:
+            # A single lookup: the incoming thread may cancel (and remove)
+            # the task between a membership test and an indexing.
+            task = self._tasks.get(addr)
+
+            if task is None:
                 # When a task is cancelled on the worker it is not removed
                 # from the ready queue because it is much cheaper to just
                 # discard cancelled tasks as they come out.
                 continue
-
-            task = self._tasks[addr]
 
             if (
                 addr in self._cancelled_task_ids
